@@ -1,12 +1,13 @@
 (* C14, mirror model (DESIGN 7/C14 T2): the explicit stack machine of DFA.successors
-   (automata/fa/dfa.py:1470-1584) decision by decision, AFTER the one-line repair of DESIGN
+   (automata/fa/dfa.py:1470-1590) decision by decision, AFTER the one-line repair of DESIGN
    section 8 row 8 (the state is read from the stack after the loop).
    Stacks are lists with the top first (Python: deque, top last), so the current word is
    [rev c_chars].  sorted_symbols is the alphabet in ascending code order (codes = ranks under
    the user's key - of ALL characters in play, so a start word may hold codes that lie between,
    below or above the alphabet's), reversed for predecessors.  After the repairs e6d88f7 (helper
    next_symbol: a symbol of the start word outside the alphabet is followed by the first alphabet
-   symbol after it in traversal order) and d88b819 (early guard for the empty alphabet) neither
+   symbol after it in traversal order), 366d64a (should_yield is false after returning to a parent
+   whose next candidate is first_symbol) and d88b819 (early guard for the empty alphabet) neither
    symbol_succ nor sorted_symbols[...] can raise.
    self.transitions[state] cannot raise for a valid DFA (C01: dfa_step_spec), so the step is ostep. *)
 From Coq Require Import List Arith Bool.
@@ -77,7 +78,11 @@ Section Machine.
         (* candidate_state = None is never viable; predecessors yield here; traverse to parent *)
         let y2 := emit c state reverse true in
         match c_chars c with
-        | a :: cs => Ok (y1 ++ y2, mkcfg below_states cs (next_sym syms reverse a) true)
+        | a :: cs =>
+          (* back_at_parent (366d64a): after backing out of a symbol that comes before every alphabet
+             symbol the candidate is first_symbol again, but the word on the stack has been passed *)
+          let n := next_sym syms reverse a in
+          Ok (y1 ++ y2, mkcfg below_states cs n (negb (eqb_opt Nat.eqb n (Some first))))
         | [] => Err IndexErr
         end
       end
